@@ -1,10 +1,13 @@
 (* C10 — Exclusive: every call is answered by an execution begun after it; none lost.
-   Statements only; every proof is `exact` of a lemma of Proofs/ExclusiveAbs.v or Proofs/ExclusiveKeys.v.
-   Model: Model/ExclusiveAbs.v, the counter abstraction of exclusive.go for one key with one individually tracked
-   ("tagged") blocking/async call; `a` blocking/async and `b` start-style calls, every schedule. *)
+   Statements only; every proof is `exact` of a lemma of Proofs/ExclusiveAbs.v, ExclusiveKeys.v, ExclusiveVal.v or
+   ExclusiveValRes.v.
+   Models: Model/ExclusiveAbs.v, the counter abstraction of exclusive.go for one key with one individually tracked
+   ("tagged") blocking/async call; `a` blocking/async and `b` start-style calls, every schedule.
+   Model/ExclusiveVal.v (second half of this file): the SAME counter protocol (`cstep`) with k individually tracked
+   calls in one history, result values, and the identity of the stored work function. *)
 From Coq Require Import List Arith Bool.
-From BB.Model Require Import ExclusiveAbs.
-From BB.Proofs Require ExclusiveAbs ExclusiveKeys.
+From BB.Model Require Import ExclusiveAbs ExclusiveVal.
+From BB.Proofs Require ExclusiveAbs ExclusiveKeys ExclusiveVal ExclusiveValRes.
 Import ListNotations.
 
 (* "it is the outcome of an execution for its key that began after the call was made, never a result computed earlier".
@@ -94,22 +97,6 @@ Theorem C10_terminal_calls_imply_exec : forall a b sched,
 Proof. exact Proofs.ExclusiveKeys.terminal_calls_imply_exec. Qed.
 Print Assumptions C10_terminal_calls_imply_exec.
 
-(* "callers coalesced into one execution receive the identical result and error, the executed function was supplied by
-   one of them".  FULL STATEMENT (not expressible in the counter abstraction, which has no result values or function
-   identities): in every history, for every execution x of key k, all calls whose outcome was produced by x carry
-   the same (result, error) pair, namely the pair x resolved with, and the function run by x was passed by a call of key
-   k that attached to x's item.  What the model proves is the part visible to the tagged call: the execution whose
-   resolve completed its item (tres) IS the execution its item was bound to at ExecStart (texec) -- the result it copies
-   is that execution's and no other's.  The identity clauses are decided on the implementation by the harness monitors
-   (C09K1/C09K2/C09S: `coalesced-differ`, `outcome-not-resolved-value`, `fn-supplier`). *)
-Theorem C10_coalesced_identical_partial : forall a b sched,
-  let s := run (init a b) sched in
-  tpc (tg s) = TDone ->
-  tag_started_after (tg s) = true /\ tcall (tg s) < texec (tg s) /\ tres (tg s) = texec (tg s) /\
-  texec (tg s) <= v s started /\ tans (tg s) = 1.
-Proof. exact Proofs.ExclusiveAbs.tagged_answered_after_call. Qed.
-Print Assumptions C10_coalesced_identical_partial.
-
 (* Mutation sensitivity, on the SAME transition function. *)
 Theorem C10_no_forced_resolve_refuted :
   exists sched, let s := run_gen Proofs.ExclusiveAbs.fl_noforce (init 1 0) sched in
@@ -142,3 +129,208 @@ Example C10_start_escapes_and_is_followed :
   let t := run s' [PB (PAttach KS false); PB PSleepDone; PB PResolve; PB PReturn; PB PG3] in
   v s' issueds = 1 /\ terminalb t = true /\ v t escaped = 1 /\ v s started = 0 /\ v t started = 1.
 Proof. exact Proofs.ExclusiveKeys.call_followed_hyps_satisfiable. Qed.
+
+(* ================================================================================================================ *)
+(* Values, coalescing, the executed function (Model/ExclusiveVal.v).  k tracked calls: `tags s` is their list, call i
+   is `nth_error (tags s) i`; `bt t` is the tag bookkeeping of Model/ExclusiveAbs.v (moved by the same tag_pre/tag_eff),
+   `tgot t` the outcome received, `tatt t` the number of its attach event; `elog s n` is the item executed by execution n
+   (e_res = its result/err, e_fn = the attach whose function it ran, (e_lo, e_hi] = the attaches made to it).          *)
+
+(* "it is the outcome of an execution for its key that began after the call was made, never a result computed earlier",
+   WITH VALUES: an answered tracked call holds exactly one outcome o; o is what the resolve of execution number
+   o_exec o stored in its item; that execution is the one the call's item was bound to at ExecStart and completed by;
+   and it started after the call was issued (tcall = ExecStarts before the call's first step). *)
+Theorem C10_value_from_later_execution : forall a b k sched i t,
+  let s := vrun (vinit a b k) sched in
+  nth_error (tags s) i = Some t -> tpc (bt t) = TDone ->
+  exists o, tgot t = Some o /\ e_res (elog s (o_exec o)) = Some o /\
+            o_exec o = texec (bt t) /\ tres (bt t) = texec (bt t) /\
+            tcall (bt t) < o_exec o <= vf s started /\ tans (bt t) = 1.
+Proof. exact Proofs.ExclusiveValRes.tracked_value_from_later_execution. Qed.
+Print Assumptions C10_value_from_later_execution.
+
+(* "exactly one outcome", with values: a call that is not yet answered holds nothing *)
+Theorem C10_unanswered_has_nothing : forall a b k sched i t,
+  let s := vrun (vinit a b k) sched in
+  nth_error (tags s) i = Some t -> tpc (bt t) <> TDone -> tgot t = None /\ tans (bt t) = 0.
+Proof. exact Proofs.ExclusiveValRes.tracked_unanswered_has_nothing. Qed.
+Print Assumptions C10_unanswered_has_nothing.
+
+(* "callers coalesced into one execution receive the identical result and error": any two answered calls of the SAME
+   history whose items were completed by the same resolution (tres) hold the same outcome.  With k = a every
+   blocking/async call of the history is tracked. *)
+Theorem C10_coalesced_identical : forall a b k sched i j ti tj,
+  let s := vrun (vinit a b k) sched in
+  nth_error (tags s) i = Some ti -> nth_error (tags s) j = Some tj ->
+  tpc (bt ti) = TDone -> tpc (bt tj) = TDone -> tres (bt ti) = tres (bt tj) ->
+  tgot ti = tgot tj /\ tgot ti <> None.
+Proof. exact Proofs.ExclusiveValRes.coalesced_identical. Qed.
+Print Assumptions C10_coalesced_identical.
+
+(* the former name of this clause (it used to restate C10_answered_after_call); now the statement above *)
+Theorem C10_coalesced_identical_partial : forall a b k sched i j ti tj,
+  let s := vrun (vinit a b k) sched in
+  nth_error (tags s) i = Some ti -> nth_error (tags s) j = Some tj ->
+  tpc (bt ti) = TDone -> tpc (bt tj) = TDone -> tres (bt ti) = tres (bt tj) ->
+  tgot ti = tgot tj /\ tgot ti <> None.
+Proof. exact Proofs.ExclusiveValRes.coalesced_identical. Qed.
+Print Assumptions C10_coalesced_identical_partial.
+
+(* and only those: calls answered by different executions hold differently stamped outcomes (no result is reused) *)
+Theorem C10_different_executions_different_outcomes : forall a b k sched i j ti tj,
+  let s := vrun (vinit a b k) sched in
+  nth_error (tags s) i = Some ti -> nth_error (tags s) j = Some tj ->
+  tpc (bt ti) = TDone -> tpc (bt tj) = TDone -> tres (bt ti) <> tres (bt tj) -> tgot ti <> tgot tj.
+Proof. exact Proofs.ExclusiveValRes.different_executions_different_outcomes. Qed.
+Print Assumptions C10_different_executions_different_outcomes.
+
+(* "the executed function was supplied by one of them".  Every attaching caller overwrites item.work (exclusive.go:196,
+   also a start-style caller that then escapes), so: execution n ran the function stored by attach number e_fn, that
+   attach is one of the attaches (e_lo, e_hi] made to the executed item -- the LAST one -- and the batches of
+   consecutive executions are adjacent (no attach belongs to two items or to none). *)
+Theorem C10_executed_fn_supplied_by_own_batch : forall a b k sched n,
+  let s := vrun (vinit a b k) sched in
+  1 <= n <= vf s started ->
+  e_lo (elog s n) < e_fn (elog s n) <= e_hi (elog s n) /\ e_fn (elog s n) = e_hi (elog s n) /\
+  e_lo (elog s n) = e_hi (elog s (n - 1)).
+Proof. exact Proofs.ExclusiveValRes.executed_fn_supplied_by_own_batch. Qed.
+Print Assumptions C10_executed_fn_supplied_by_own_batch.
+
+(* a tracked call bound to execution n = texec (waiting for it, answered by it, or running it) made its attach to the
+   very item n executes (after ExecStart n-1 and not after ExecStart n); if it was the last attacher before the execution
+   started, ITS function is the one that ran *)
+Theorem C10_tracked_attach_in_own_batch : forall a b k sched i t,
+  let s := vrun (vinit a b k) sched in
+  nth_error (tags s) i = Some t ->
+  Proofs.ExclusiveValRes.bound_pc (tpc (bt t)) = true \/ (tpc (bt t) = TRun /\ vrp s = RWork) ->
+  let n := texec (bt t) in
+  1 <= n <= vf s started /\ tcall (bt t) < n /\
+  e_lo (elog s n) < tatt t <= e_hi (elog s n) /\
+  (tatt t = e_hi (elog s n) -> e_fn (elog s n) = tatt t).
+Proof. exact Proofs.ExclusiveValRes.tracked_attach_in_own_batch. Qed.
+Print Assumptions C10_tracked_attach_in_own_batch.
+
+(* conversely: a tracked call whose attach stored the function run by execution n is coalesced into n, not into any other *)
+Theorem C10_fn_supplier_is_coalesced : forall a b k sched i t n,
+  let s := vrun (vinit a b k) sched in
+  nth_error (tags s) i = Some t -> Proofs.ExclusiveValRes.bound_pc (tpc (bt t)) = true ->
+  1 <= n <= vf s started -> tatt t = e_fn (elog s n) -> texec (bt t) = n.
+Proof. exact Proofs.ExclusiveValRes.fn_supplier_is_coalesced. Qed.
+Print Assumptions C10_fn_supplier_is_coalesced.
+
+(* "a work function that returns without resolving yields the resolve-not-called error instead of a hang".  Step form:
+   PReturn from RWork (returned, never resolved) stores (nil, errResolveNotCalled) in the item; PResolve stores the
+   value it was given ... *)
+Theorem C10_return_without_resolve_stores_error : forall s x s',
+  vrp s = RWork -> vstep s (VB PReturn x) = Some s' ->
+  vf s' started = vf s started /\
+  e_res (elog s' (vf s started)) = Some {| o_exec := vf s started; o_val := ErrResolveNotCalled |} /\
+  e_forced (elog s' (vf s started)) = true.
+Proof. exact Proofs.ExclusiveValRes.return_without_resolve_stores_error. Qed.
+Print Assumptions C10_return_without_resolve_stores_error.
+
+Theorem C10_resolve_stores_value : forall s x s',
+  vstep s (VB PResolve x) = Some s' ->
+  vrp s = RWork /\ vf s' started = vf s started /\
+  e_res (elog s' (vf s started)) = Some {| o_exec := vf s started; o_val := Val x |} /\
+  e_forced (elog s' (vf s started)) = false.
+Proof. exact Proofs.ExclusiveValRes.resolve_stores_value. Qed.
+Print Assumptions C10_resolve_stores_value.
+
+(* ... every finished execution has exactly such an outcome, the error iff it was forced ... *)
+Theorem C10_finished_execution_outcome : forall a b k sched n,
+  let s := vrun (vinit a b k) sched in
+  1 <= n <= vf s started -> n < vf s started \/ vrp s <> RWork ->
+  exists o, e_res (elog s n) = Some o /\ o_exec o = n /\
+            (e_forced (elog s n) = true <-> o_val o = ErrResolveNotCalled).
+Proof. exact Proofs.ExclusiveValRes.finished_execution_outcome. Qed.
+Print Assumptions C10_finished_execution_outcome.
+
+(* ... and EVERY caller coalesced into an execution that returned without resolving receives that error (and a caller
+   of a resolved execution receives a value, never the error) *)
+Theorem C10_unresolved_work_yields_error : forall a b k sched i t,
+  let s := vrun (vinit a b k) sched in
+  nth_error (tags s) i = Some t -> tpc (bt t) = TDone ->
+  (e_forced (elog s (texec (bt t))) = true ->
+     tgot t = Some {| o_exec := texec (bt t); o_val := ErrResolveNotCalled |}) /\
+  (e_forced (elog s (texec (bt t))) = false ->
+     exists x, tgot t = Some {| o_exec := texec (bt t); o_val := Val x |}).
+Proof. exact Proofs.ExclusiveValRes.unresolved_work_yields_error. Qed.
+Print Assumptions C10_unresolved_work_yields_error.
+
+(* none lost, for every tracked call at once: when nothing can move any more every tracked call that was made holds
+   its outcome, and no per-key state remains *)
+Theorem C10_all_tracked_settled : forall a b k sched,
+  let s := vrun (vinit a b k) sched in
+  vterminalb s = true ->
+  vrp s = RNone /\ vf s mm = 0 /\ vf s answered = vf s issuedc /\ Proofs.ExclusiveAbs.in_flight (vf s) = 0 /\
+  vf s mcount = 0 /\
+  forall i t, nth_error (tags s) i = Some t ->
+    (tpc (bt t) = TNone /\ tgot t = None) \/ (tpc (bt t) = TDone /\ tgot t <> None).
+Proof. exact Proofs.ExclusiveValRes.vterminal_all_settled. Qed.
+Print Assumptions C10_all_tracked_settled.
+
+(* "Which call is tagged is immaterial", as theorems instead of a meta-argument.  (1) In a history with k tracked calls,
+   what tracked call i sees (`view`: runner pc, counters, ITS tag) is a reachable state of the one-tag model in which i
+   is the tagged call: every theorem above about `run (init a b) sched` holds of every tracked call of one history. *)
+Theorem C10_tracked_call_is_the_tagged_call : forall a b k sched i, i < k ->
+  exists sched1 t, nth_error (tags (vrun (vinit a b k) sched)) i = Some t /\
+                   Proofs.ExclusiveVal.view (vrun (vinit a b k) sched) t = run (init a b) sched1.
+Proof. exact Proofs.ExclusiveVal.tracked_call_is_the_tagged_call. Qed.
+Print Assumptions C10_tracked_call_is_the_tagged_call.
+
+(* (2) nothing was lost: every run of the one-tag model is the view of the single tracked call of a run with k = 1 *)
+Theorem C10_one_tag_model_is_one_tracked_call : forall a b sched,
+  exists vsched t, tags (vrun (vinit a b 1) vsched) = [t] /\
+                   Proofs.ExclusiveVal.view (vrun (vinit a b 1) vsched) t = run (init a b) sched.
+Proof. exact Proofs.ExclusiveVal.one_tag_model_is_one_tracked_call. Qed.
+Print Assumptions C10_one_tag_model_is_one_tracked_call.
+
+(* (3) renaming: with two tracked calls, exchanging their names (swap2: the two list entries; swap2p: VT 0 <-> VT 1)
+   commutes with the transition function, for every variant of it *)
+Theorem C10_renaming_tracked_calls : forall fl cur s p,
+  length (tags s) = 2 ->
+  vstep_gen fl cur (Proofs.ExclusiveVal.swap2 s) (Proofs.ExclusiveVal.swap2p p)
+  = option_map Proofs.ExclusiveVal.swap2 (vstep_gen fl cur s p).
+Proof. exact Proofs.ExclusiveVal.vstep_swap2. Qed.
+Print Assumptions C10_renaming_tracked_calls.
+
+(* the invariants behind the above hold along every schedule *)
+Theorem C10_value_invariants : forall a b k sched,
+  Proofs.ExclusiveVal.VInv (vrun (vinit a b k) sched) /\ Proofs.ExclusiveValRes.RInv (vrun (vinit a b k) sched).
+Proof. exact Proofs.ExclusiveValRes.VRInv_run. Qed.
+Print Assumptions C10_value_invariants.
+
+(* Mutation sensitivity, on the SAME transition function (defect switch `cur`): a waiter that copied the result of the
+   LATEST execution instead of its own item's would break C10_coalesced_identical. *)
+Theorem C10_copy_latest_refuted :
+  exists sched ti tj, let s := vrun_gen good true (vinit 4 0 2) sched in
+    nth_error (tags s) 0 = Some ti /\ nth_error (tags s) 1 = Some tj /\
+    tpc (bt ti) = TDone /\ tpc (bt tj) = TDone /\ tres (bt ti) = tres (bt tj) /\ tgot ti <> tgot tj.
+Proof. exact Proofs.ExclusiveValRes.copy_latest_refuted. Qed.
+Print Assumptions C10_copy_latest_refuted.
+
+(* the interesting cases occur (and the hypotheses above are satisfiable): three calls coalesced by a CallAfter wait all
+   receive (execution 1, Val 7) and the function run is the last attacher's (attach 3); a work function that never
+   resolves gives the error to both coalesced calls; a call made in the resolve-to-return gap of execution 1 (value 7)
+   receives execution 2's value 9 *)
+Example C10_coalesced_calls_share_value_and_last_attacher_supplies_fn :
+  let s := vrun (vinit 3 0 2) Proofs.ExclusiveValRes.vs_coalesce in
+  Proofs.ExclusiveValRes.obs s =
+    (RNone, [(TDone, 0, 1, 2, Some {| o_exec := 1; o_val := Val 7 |});
+             (TDone, 0, 1, 3, Some {| o_exec := 1; o_val := Val 7 |})], 1) /\
+  (e_lo (elog s 1), e_hi (elog s 1), e_fn (elog s 1)) = (0, 3, 3) /\ vterminalb s = true.
+Proof. exact Proofs.ExclusiveValRes.coalesced_calls_share_value_and_last_attacher_supplies_fn. Qed.
+
+Example C10_unresolved_work_error_to_all :
+  let s := vrun (vinit 2 0 2) Proofs.ExclusiveValRes.vs_unresolved in
+  map tgot (tags s) = [Some {| o_exec := 1; o_val := ErrResolveNotCalled |};
+                       Some {| o_exec := 1; o_val := ErrResolveNotCalled |}] /\
+  e_forced (elog s 1) = true /\ vterminalb s = true.
+Proof. exact Proofs.ExclusiveValRes.unresolved_work_error_to_all. Qed.
+
+Example C10_gap_call_gets_later_value :
+  let s := vrun (vinit 2 0 1) Proofs.ExclusiveValRes.vs_gap in
+  Proofs.ExclusiveValRes.obs s = (RNone, [(TDone, 1, 2, 2, Some {| o_exec := 2; o_val := Val 9 |})], 2) /\
+  e_res (elog s 1) = Some {| o_exec := 1; o_val := Val 7 |} /\ vterminalb s = true.
+Proof. exact Proofs.ExclusiveValRes.gap_call_gets_later_value. Qed.
